@@ -1,12 +1,71 @@
 package vapp
 
-import "github.com/Oneledger/protocol/action"
+import (
+	"crypto/sha256"
+	"encoding/hex"
 
-// msgExt: further transaction kinds (governance, ONS, ethereum trackers) are added here.
-func (g *Genesis) msgExt(t TxReq) (action.Msg, []string, bool) {
-	return nil, nil, false
+	"github.com/Oneledger/protocol/action"
+	gv "github.com/Oneledger/protocol/action/governance"
+	aons "github.com/Oneledger/protocol/action/ons"
+	"github.com/Oneledger/protocol/data/balance"
+	"github.com/Oneledger/protocol/data/governance"
+	"github.com/Oneledger/protocol/data/ons"
+)
+
+// PropID maps a model proposal name ("p1") to a well-formed proposal id.
+func PropID(name string) governance.ProposalID {
+	h := sha256.Sum256([]byte("verif/prop/" + name))
+	return governance.ProposalID(hex.EncodeToString(h[:]))
 }
 
-func (g *Genesis) buildOLVM(t TxReq) *Built {
-	panic("OLVM not built yet")
+var propTypes = map[string]governance.ProposalType{
+	"config": governance.ProposalTypeConfigUpdate, "code": governance.ProposalTypeCodeChange, "general": governance.ProposalTypeGeneral,
+}
+
+// msgExt: governance, ONS and ethereum tracker transaction kinds.
+func (g *Genesis) msgExt(t TxReq) (action.Msg, []string, bool) {
+	switch t.Kind {
+	case "PROP_CREATE":
+		goal := balance.NewAmountFromInt(t.I("goal"))
+		return &gv.CreateProposal{
+			ProposalID: PropID(t.S("id")), ProposalType: propTypes[t.S("type")], Headline: "headline " + t.S("id"),
+			Description: "description of " + t.S("id"), Proposer: g.addr(t.S("by")), InitialFunding: t.AmountOf("amt"),
+			FundingDeadline: t.I("fundDL"), FundingGoal: goal, VotingDeadline: t.I("voteDL"), PassPercentage: int(t.I("pass")),
+			ConfigUpdate: t.S("update"),
+		}, []string{t.S("by")}, true
+	case "PROP_FUND":
+		return &gv.FundProposal{ProposalId: PropID(t.S("id")), FunderAddress: g.addr(t.S("by")), FundValue: t.AmountOf("amt")}, []string{t.S("by")}, true
+	case "PROP_VOTE":
+		v := t.S("v")
+		return &gv.VoteProposal{ProposalID: PropID(t.S("id")), Address: g.addr(t.S("by")), ValidatorAddress: g.addr(v),
+			Opinion: governance.VoteOpinion(t.I("op"))}, []string{t.S("by"), v}, true
+	case "PROP_CANCEL":
+		return &gv.CancelProposal{ProposalId: PropID(t.S("id")), Proposer: g.addr(t.S("by")), Reason: "reason"}, []string{t.S("by")}, true
+	case "PROP_WITHDRAW":
+		return &gv.WithdrawFunds{ProposalID: PropID(t.S("id")), Funder: g.addr(t.S("by")), WithdrawValue: t.AmountOf("amt"),
+			Beneficiary: g.addr(t.S("to"))}, []string{t.S("by")}, true
+	case "PROP_EXPIRE":
+		return &gv.ExpireVotes{ProposalID: PropID(t.S("id")), ValidatorAddress: g.addr(t.S("by"))}, []string{t.S("by")}, true
+	case "PROP_FINALIZE":
+		return &gv.FinalizeProposal{ProposalID: PropID(t.S("id")), ValidatorAddress: g.addr(t.S("by"))}, []string{t.S("by")}, true
+	case "DOM_CREATE":
+		return &aons.DomainCreate{Owner: g.addr(t.S("owner")), Beneficiary: g.addr(t.S("benef")), Name: ons.Name(t.S("name")),
+			Uri: t.S("uri"), BuyingPrice: t.AmountOf("amt")}, []string{t.S("owner")}, true
+	case "DOM_UPDATE":
+		return &aons.DomainUpdate{Owner: g.addr(t.S("owner")), Beneficiary: g.addr(t.S("benef")), Name: ons.Name(t.S("name")),
+			Active: t.I("active") != 0, Uri: t.S("uri")}, []string{t.S("owner")}, true
+	case "DOM_SELL":
+		return &aons.DomainSale{Name: ons.Name(t.S("name")), OwnerAddress: g.addr(t.S("owner")), Price: t.AmountOf("amt"),
+			CancelSale: t.I("cancel") != 0}, []string{t.S("owner")}, true
+	case "DOM_PURCHASE":
+		return &aons.DomainPurchase{Name: ons.Name(t.S("name")), Buyer: g.addr(t.S("buyer")), Account: g.addr(t.S("benef")),
+			Offering: t.AmountOf("amt")}, []string{t.S("buyer")}, true
+	case "DOM_SEND":
+		return &aons.DomainSend{From: g.addr(t.S("from")), Name: ons.Name(t.S("name")), Amount: t.AmountOf("amt")}, []string{t.S("from")}, true
+	case "DOM_RENEW":
+		return &aons.RenewDomain{Owner: g.addr(t.S("owner")), Name: ons.Name(t.S("name")), BuyingPrice: t.AmountOf("amt")}, []string{t.S("owner")}, true
+	case "DOM_DELETE_SUB":
+		return &aons.DeleteSub{Name: ons.Name(t.S("name")), Owner: g.addr(t.S("owner"))}, []string{t.S("owner")}, true
+	}
+	return g.msgEth(t)
 }
